@@ -48,9 +48,10 @@ class LoopSpec:
 
 
 SPECIAL = {
-    "lang::lex::BasicLexer::lex": LoopSpec([("incr", "line_str_pos")]),
-    "lang::token::Token::scan_alphabetic": LoopSpec([("assign_from_index", "s")]),
-    "mach::function::Function::val": LoopSpec([("assign_from_index", "s")]),
+    # (the variable is whichever local the statement updates from itself: no names)
+    "lang::lex::BasicLexer::lex": LoopSpec([("incr", None)]),
+    "lang::token::Token::scan_alphabetic": LoopSpec([("assign_from_index", None)]),
+    "mach::function::Function::val": LoopSpec([("assign_from_index", None)]),
 }
 
 
@@ -86,13 +87,14 @@ def events(f, b, scc, advancing, spec):
             for st in f.blocks[b]["stmts"]:
                 if st["k"] != "assign" or st["place"]["proj"]:
                     continue
-                if f.name_of_local(st["place"]["local"]) != var:
-                    continue
+                loc = st["place"]["local"]
+                if not f.name_of_local(loc):
+                    continue            # compiler temporaries are not loop variables
                 rv = st["rv"]
-                if kind == "incr" and _is_increment(f, rv, var):
-                    ev.append(("special:%s" % var, 1))
-                elif kind == "assign_from_index" and _is_reslice(f, rv, var):
-                    ev.append(("special:%s" % var, 1))
+                if kind == "incr" and _is_increment(f, rv, loc):
+                    ev.append(("special:_%d" % loc, 1))
+                elif kind == "assign_from_index" and _is_reslice(f, rv, loc):
+                    ev.append(("special:_%d" % loc, 1))
     return ev
 
 
@@ -192,9 +194,10 @@ def _is_increment(f, rv, var):
         b = v["rv"]
     if b["op"] not in ("Add", "AddWithOverflow", "AddUnchecked"):
         return False
-    ld, rd = f.describe(b["l"]), f.describe(b["r"])
+    rd = f.describe(b["r"])
     m = re.match(r"^const:([1-9]\d*)$", rd)
-    return ld == "var:" + var and bool(m)
+    lp = op_place(b["l"])
+    return lp is not None and not lp["proj"] and lp["local"] == var and bool(m)
 
 
 def _is_reslice(f, rv, var):
@@ -223,7 +226,7 @@ def _index_on_var(f, call, var):
     if call.self_ty != "str":
         return False
     rl, _rs = receiver_local(f, call)
-    return rl is not None and f.name_of_local(rl) == var
+    return rl is not None and rl == var
 
 
 def _result_checked_exits(f, call, sccs):
